@@ -319,7 +319,8 @@ Definition syncml_type_rewrite (l : xlang) (t : option trow) (tmp : bytes) : byt
    is only set while the FIRST child of an element is encoded (it is reset after every node).  The parent's own
    tag entry ([p_tag parent]) is NOT consulted by the current code — pending finding "binary-later-text":
    the repair makes this  match e_cur_tag s with Some r => Some r | None => p_tag parent end . *)
-Definition text_tag (s : est) (parent : pinfo) : option trow := e_cur_tag s.
+Definition text_tag (s : est) (parent : pinfo) : option trow :=
+  match e_cur_tag s with Some r => Some r | None => p_tag parent end.
 
 Definition text_policy (o : opts) (parent : pinfo) (s : est) (content : bytes) : option bytes :=
   if negb (e_in_cdata s) && negb (tag_is_binary (text_tag s parent)) && negb (is_canonical o) then
